@@ -1,4 +1,4 @@
-(* C05/Proofs1.v -- no byte string makes the frame parsers crash, except at the sites the model names:
+(* C05/Proofs1.v -- no byte string makes the frame parsers crash:
    a Hoare-style judgement [good sites Q p] ("on every byte string p returns a value satisfying Q and a
    suffix of its input, or an error, or crashes at one of [sites]") with one rule per monad operation,
    instantiated for every reader of C04/Model.v. *)
@@ -179,17 +179,20 @@ Proof.
   eapply good_bind; [apply good_alloc|]. intros _ _. apply good_read_count, good_read_string.
 Qed.
 
-Lemma good_read_inet_addr s : In CInetSlice s -> good s wf_bytes read_inet_addr.
+Lemma good_read_inet_addr s : good s wf_bytes read_inet_addr.
 Proof.
-  intros Hin. unfold read_inet_addr. apply good_need_take; [lia|]. intros sz Hsz Hl. cbv zeta.
-  destruct (negb ((be_dec sz =? 4) || (be_dec sz =? 16))); [apply good_fail|].
-  eapply good_bind; [apply good_need|]. intros _ _. eapply good_bind; [apply good_alloc|]. intros _ _.
-  apply good_take_site, Hin.
+  unfold read_inet_addr. apply good_need_take; [lia|]. intros sz Hsz Hl. cbv zeta.
+  destruct (Z.eqb_spec (be_dec sz) 4) as [E4|E4]; [|destruct (Z.eqb_spec (be_dec sz) 16) as [E16|E16]]; cbn [orb negb];
+    try apply good_fail.
+  all: intros b Hb; rewrite out_bind; unfold rbind;
+    (destruct (Z.ltb_spec (blen b) (be_dec sz)) as [Hlt|Hge]; [rewrite out_need_short by assumption; exact I|]);
+    rewrite out_need_ok by assumption; rewrite out_bind; unfold rbind; rewrite out_alloc; rewrite out_take_ok by lia;
+    (split; [apply wf_firstn, Hb | exists (Z.to_nat (be_dec sz)); reflexivity]).
 Qed.
 
-Lemma good_read_inet s : In CInetSlice s -> good s (fun _ => True) read_inet.
+Lemma good_read_inet s : good s (fun _ => True) read_inet.
 Proof.
-  intros Hin. unfold read_inet. eapply good_bind; [apply good_read_inet_addr, Hin|]. intros ip _.
+  unfold read_inet. eapply good_bind; [apply good_read_inet_addr|]. intros ip _.
   eapply good_bind; [apply good_read_int|]. intros port _. apply good_ret. exact I.
 Qed.
 
@@ -223,14 +226,17 @@ Proof.
     eapply good_bind; [apply good_read_string|]. intros c _. apply good_ret. exact I. }
   intros ct _. cbv zeta.
   destruct (Z.eqb_spec (snd ct) K.TypeTuple) as [Et|Et].
-  { eapply good_bind; [apply good_read_short|]. intros n _. eapply good_bind; [apply good_alloc|]. intros _ _.
-    eapply good_bind; [apply good_read_count, IH|]. intros elems He. apply good_ret. apply tinfo_ok_tuple_forall, He. }
+  { eapply good_bind; [apply good_read_short|]. intros n _.
+    eapply good_bind with (Q := Forall tinfo_ok).
+    { apply good_read_count. eapply good_bind; [apply IH|]. intros t Ht. eapply good_bind; [apply good_alloc|]. intros _ _.
+      apply good_ret. exact Ht. }
+    intros elems He. apply good_ret. apply tinfo_ok_tuple_forall, He. }
   destruct (Z.eqb_spec (snd ct) K.TypeUDT) as [Eu|Eu].
   { eapply good_bind; [apply good_read_string|]. intros ks _. eapply good_bind; [apply good_read_string|]. intros nm _.
-    eapply good_bind; [apply good_read_short|]. intros n _. eapply good_bind; [apply good_alloc|]. intros _ _.
+    eapply good_bind; [apply good_read_short|]. intros n _.
     eapply good_bind with (Q := Forall (fun f => tinfo_ok (snd f))).
     { apply good_read_count. eapply good_bind; [apply good_read_string|]. intros fnm _. eapply good_bind; [apply IH|]. intros t Ht.
-      apply good_ret. exact Ht. }
+      eapply good_bind; [apply good_alloc|]. intros _ _. apply good_ret. exact Ht. }
     intros fields Hf. apply good_ret. apply tinfo_ok_udt_forall, Hf. }
   destruct (Z.eqb_spec (snd ct) K.TypeMap) as [Em|Em].
   { cbn [orb]. eapply good_bind with (Q := fun o => match o with Some k => tinfo_ok k | None => False end).
@@ -284,15 +290,14 @@ Proof.
   eapply good_bind; [apply good_read_meta_tail|]. intros r Hr. apply good_ret. exact Hr.
 Qed.
 
-(* the only crash of the prepared metadata reader is the negative partition-key count, v4+ only *)
-Lemma good_parse_prepared_metadata s proto :
-  (proto >= K.protoVersion4 -> In CPkeyMake s) -> good s (fun _ => True) (parse_prepared_metadata proto).
+Lemma good_parse_prepared_metadata s proto : good s (fun _ => True) (parse_prepared_metadata proto).
 Proof.
-  intros Hin. unfold parse_prepared_metadata. eapply good_bind; [apply good_read_int|]. intros flags _.
+  unfold parse_prepared_metadata. eapply good_bind; [apply good_read_int|]. intros flags _.
   eapply good_bind; [apply good_read_int|]. intros cc _. destruct (cc <? 0); [apply good_fail|].
   eapply good_bind with (Q := fun _ => True).
-  { destruct (Z.geb_spec proto K.protoVersion4); [|apply good_ret; exact I].
-    eapply good_bind; [apply good_read_int|]. intros pkc _. destruct (pkc <? 0); [apply good_crash, Hin; lia|].
+  { destruct (proto >=? K.protoVersion4); [|apply good_ret; exact I].
+    eapply good_bind; [apply good_read_int|]. intros pkc _. destruct (pkc <? 0); [apply good_fail|].
+    eapply good_bind; [apply good_need|]. intros _ _.
     eapply good_bind; [apply good_alloc|]. intros _ _. eapply good_any. apply good_read_count, good_read_short. }
   intros pk _. eapply good_bind; [apply good_read_meta_tail|]. intros r _. apply good_ret. exact I.
 Qed.
@@ -302,11 +307,11 @@ Qed.
 Definition frame_ok (f : frame) : Prop := match f with FRows m _ => cols_ok m | _ => True end.
 
 
-Lemma good_read_error_map s : In CInetSlice s -> good s (fun _ => True) read_error_map.
+Lemma good_read_error_map s : good s (fun _ => True) read_error_map.
 Proof.
-  intros Hin. unfold read_error_map. eapply good_bind; [apply good_read_int|]. intros n _.
+  unfold read_error_map. eapply good_bind; [apply good_read_int|]. intros n _.
   eapply good_any. apply good_read_count with (Q := fun _ => True).
-  eapply good_bind; [apply good_read_inet_addr, Hin|]. intros ip _. eapply good_bind; [apply good_read_short|]. intros code _.
+  eapply good_bind; [apply good_read_inet_addr|]. intros ip _. eapply good_bind; [apply good_read_short|]. intros code _.
   apply good_ret. exact I.
 Qed.
 
@@ -315,23 +320,21 @@ Ltac gprim :=
         | apply good_read_short_bytes | apply good_read_string_list | apply good_read_bytes | apply good_alloc ].
 Ltac gseq := repeat (first [ (apply good_ret; exact I) | (eapply good_bind; [gprim | intros ? ?]) ]).
 
-(* the error frame reads an inet address only in the v5 reason map *)
-Lemma good_parse_error_frame s proto :
-  (proto > K.protoVersion4 -> In CInetSlice s) -> good s frame_ok (parse_error_frame proto).
+Lemma good_parse_error_frame s proto : good s frame_ok (parse_error_frame proto).
 Proof.
-  intros Hin. unfold parse_error_frame. eapply good_bind; [apply good_read_int|]. intros code _.
+  unfold parse_error_frame. eapply good_bind; [apply good_read_int|]. intros code _.
   eapply good_bind; [apply good_read_string|]. intros msg _. cbv zeta.
   repeat match goal with |- good _ _ (if ?c then _ else _) => destruct c end; try apply good_fail; try (gseq; fail).
   - (* read failure *)
     gseq. eapply good_bind with (Q := fun _ => True).
-    { destruct (Z.gtb_spec proto K.protoVersion4).
-      - eapply good_bind; [apply good_read_error_map, Hin; lia|]. intros m _. apply good_ret. exact I.
+    { destruct (proto >? K.protoVersion4).
+      - eapply good_bind; [apply good_read_error_map|]. intros m _. apply good_ret. exact I.
       - gseq. }
     intros me _. gseq.
   - (* write failure *)
     gseq. eapply good_bind with (Q := fun _ => True).
-    { destruct (Z.gtb_spec proto K.protoVersion4).
-      - eapply good_bind; [apply good_read_error_map, Hin; lia|]. intros m _. apply good_ret. exact I.
+    { destruct (proto >? K.protoVersion4).
+      - eapply good_bind; [apply good_read_error_map|]. intros m _. apply good_ret. exact I.
       - gseq. }
     intros me _. gseq.
 Qed.
@@ -343,36 +346,31 @@ Proof.
   - gseq. repeat match goal with |- good _ _ (if ?c then _ else _) => destruct c end; try apply good_fail; gseq.
 Qed.
 
-Lemma good_parse_result_frame s proto :
-  (proto >= K.protoVersion4 -> In CPkeyMake s) -> good s frame_ok (parse_result_frame proto).
+Lemma good_parse_result_frame s proto : good s frame_ok (parse_result_frame proto).
 Proof.
-  intros Hin. unfold parse_result_frame. eapply good_bind; [apply good_read_int|]. intros kind _.
+  unfold parse_result_frame. eapply good_bind; [apply good_read_int|]. intros kind _.
   repeat match goal with |- good _ _ (if ?c then _ else _) => destruct c end; try apply good_fail; try (gseq; fail).
   - unfold parse_result_rows. eapply good_bind; [apply good_parse_result_metadata|]. intros m Hm.
     eapply good_bind; [apply good_read_int|]. intros n _. destruct (n <? 0); [apply good_fail | apply good_ret; exact Hm].
   - unfold parse_result_prepared. eapply good_bind; [apply good_read_short_bytes|]. intros id _.
-    eapply good_bind; [apply good_parse_prepared_metadata, Hin|]. intros req _.
+    eapply good_bind; [apply good_parse_prepared_metadata|]. intros req _.
     destruct (proto <? K.protoVersion2); [apply good_ret; exact I|].
     eapply good_bind; [apply good_parse_result_metadata|]. intros resp _. apply good_ret. exact I.
   - apply good_parse_schema_change.
 Qed.
 
-Lemma good_parse_event_frame s proto : In CInetSlice s -> good s frame_ok (parse_event_frame proto).
+Lemma good_parse_event_frame s proto : good s frame_ok (parse_event_frame proto).
 Proof.
-  intros Hin. unfold parse_event_frame. eapply good_bind; [apply good_read_string|]. intros et _.
+  unfold parse_event_frame. eapply good_bind; [apply good_read_string|]. intros et _.
   repeat match goal with |- good _ _ (if ?c then _ else _) => destruct c end; try apply good_fail.
-  - eapply good_bind; [apply good_read_string|]. intros ch _. eapply good_bind; [apply good_read_inet, Hin|]. intros hp _. apply good_ret. exact I.
-  - eapply good_bind; [apply good_read_string|]. intros ch _. eapply good_bind; [apply good_read_inet, Hin|]. intros hp _. apply good_ret. exact I.
+  - eapply good_bind; [apply good_read_string|]. intros ch _. eapply good_bind; [apply good_read_inet|]. intros hp _. apply good_ret. exact I.
+  - eapply good_bind; [apply good_read_string|]. intros ch _. eapply good_bind; [apply good_read_inet|]. intros hp _. apply good_ret. exact I.
   - apply good_parse_schema_change.
 Qed.
 
-(* the crash sites parseFrame can reach, by opcode and framer version *)
-Definition frame_sites (proto hop : Z) : list crashc :=
-  (if (hop =? K.opEvent) || ((hop =? K.opError) && (proto >? K.protoVersion4)) then [CInetSlice] else [])
-  ++ (if (hop =? K.opResult) && (proto >=? K.protoVersion4) then [CPkeyMake] else []).
-
+(* parseFrame has no crash site left *)
 Lemma good_parse_frame proto hver hflags hop :
-  good (frame_sites proto hop) (fun p => frame_ok (p_frame p)) (parse_frame proto hver hflags hop).
+  good [] (fun p => frame_ok (p_frame p)) (parse_frame proto hver hflags hop).
 Proof.
   unfold parse_frame. destruct (Z.land hver K.protoDirectionMask =? 0); [apply good_fail|].
   eapply good_bind with (Q := fun _ => True).
@@ -385,19 +383,13 @@ Proof.
   { destruct (has_flag hflags K.flagCustomPayload); [|apply good_ret; exact I].
     eapply good_bind; [apply good_read_bytes_map|]. intros m _. apply good_ret. exact I. }
   intros pl _. eapply good_bind with (Q := frame_ok); [|intros fr Hfr; apply good_ret; exact Hfr].
-  unfold frame_sites.
-  destruct (Z.eqb_spec hop K.opError) as [->|He].
-  { apply good_parse_error_frame. intros Hp. change (K.opError =? K.opEvent) with false. change (K.opError =? K.opError) with true.
-    cbn [orb andb]. destruct (Z.gtb_spec proto K.protoVersion4); [|lia]. apply in_or_app. left. left. reflexivity. }
-  destruct (Z.eqb_spec hop K.opReady); [apply good_ret; exact I|].
-  destruct (Z.eqb_spec hop K.opResult) as [->|Hr].
-  { apply good_parse_result_frame. intros Hp. change (K.opResult =? K.opResult) with true.
-    destruct (Z.geb_spec proto K.protoVersion4); [|lia]. apply in_or_app. right. left. reflexivity. }
-  destruct (Z.eqb_spec hop K.opSupported).
+  destruct (hop =? K.opError); [apply good_parse_error_frame|].
+  destruct (hop =? K.opReady); [apply good_ret; exact I|].
+  destruct (hop =? K.opResult); [apply good_parse_result_frame|].
+  destruct (hop =? K.opSupported).
   { eapply good_bind; [apply good_read_string_multimap|]. intros m _. apply good_ret. exact I. }
-  destruct (Z.eqb_spec hop K.opAuthenticate); [gseq|].
-  destruct (Z.eqb_spec hop K.opAuthChallenge); [gseq|].
-  destruct (Z.eqb_spec hop K.opAuthSuccess); [gseq|].
-  destruct (Z.eqb_spec hop K.opEvent) as [->|Hev]; [|apply good_fail].
-  apply good_parse_event_frame. change (K.opEvent =? K.opEvent) with true. cbn [orb]. apply in_or_app. left. left. reflexivity.
+  destruct (hop =? K.opAuthenticate); [gseq|].
+  destruct (hop =? K.opAuthChallenge); [gseq|].
+  destruct (hop =? K.opAuthSuccess); [gseq|].
+  destruct (hop =? K.opEvent); [apply good_parse_event_frame | apply good_fail].
 Qed.
